@@ -10,6 +10,7 @@ from jaqalpaq.core.algorithm.visitor import Visitor
 from jaqalpaq.core import circuitbuilder
 from jaqalpaq.core.register import Register, NamedQubit
 from jaqalpaq.core.constant import Constant
+from jaqalpaq.core.macro import Macro
 from jaqalpaq.core.parameter import make_item_name
 
 
@@ -94,12 +95,13 @@ class LetFiller(Visitor):
         return sexpr
 
     def visit_GateStatement(self, gate):
-        sexpr = [
-            "gate",
-            gate.name,
-            *[self.visit(param) for param in gate.parameters.values()],
-        ]
-        return sexpr
+        arguments = [self.visit(param) for param in gate.parameters.values()]
+        if isinstance(gate.gate_def, Macro):
+            # Rebuilt by name, so that the call is linked to the filled macro
+            return ["gate", gate.name, *arguments]
+        # Any other statement keeps its definition, which the circuit need
+        # not know by name (e.g. the bounding gates of an expanded subcircuit)
+        return gate.gate_def(*arguments)
 
     def visit_Constant(self, const):
         return self.resolve_constant(const)
